@@ -298,7 +298,7 @@ class Interp:
             return NotImplemented
         a = list(args)
         t0 = self.to_text(a[0]) if a else None
-        ch0 = chr(a[0]) if a and isinstance(a[0], int) and 0 <= a[0] < 256 else None
+        ch0 = chr(a[0] & 0xff) if a and isinstance(a[0], int) and -128 <= a[0] < 256 else None       # a char that went through a signed `char` variable is negative from 0x80 on
         pat = t0 if t0 is not None else ch0
 
         def mutate(v):
@@ -878,6 +878,8 @@ class Interp:
                 items = [self.ref({'__cls__': None, '__open__': True, 'first': k_, 'second': seq[k_]}) for k_ in _keys(seq)]
             elif isinstance(seq, list):
                 items = list(seq)
+            elif isinstance(seq, S) and not hasattr(seq, 'iter_values'):
+                items = [ord(c) for c in seq]          # the characters of a std::string, as operator[] gives them
             elif hasattr(seq, 'iter_values'):
                 items = list(seq.iter_values())       # a value type of a harness that knows how to be walked (a JSON array)
             else:
@@ -1384,6 +1386,22 @@ class Interp:
                 self.fault(f, st, 'delete of a pointer %d byte(s) into %s' % (v.o, v.r))
             self.freed.add(v.r)
             return None
+        if k == 'CXXThrowExpr':
+            sub = f.s(st['ch'][0]) if st.get('ch') else None
+            while sub is not None and sub['k'] in ('ExprWithCleanups', 'CXXBindTemporaryExpr', 'MaterializeTemporaryExpr', 'CXXFunctionalCastExpr', 'ImplicitCastExpr') and sub.get('ch'):
+                sub = f.s(sub['ch'][0])
+            t = ((sub or {}).get('ct') or (sub or {}).get('t') or (sub or {}).get('cls') or 'exception').replace('const ', '').replace('class ', '').replace('struct ', '').strip()
+            std_up = {'std::out_of_range': ['std::logic_error'], 'std::invalid_argument': ['std::logic_error'], 'std::length_error': ['std::logic_error'], 'std::domain_error': ['std::logic_error'],
+                      'std::logic_error': ['std::exception'], 'std::range_error': ['std::runtime_error'], 'std::overflow_error': ['std::runtime_error'], 'std::runtime_error': ['std::exception']}
+            types, work = [], [t]
+            while work:
+                c = work.pop(0)
+                if c in types:
+                    continue
+                types.append(c)
+                work.extend(self.prog.classes.get(c, {}).get('bases', ()))
+                work.extend(std_up.get(c, ()))
+            raise Throw(types, 'thrown at %s' % f.loc(e))
         if k in ('CXXConstructExpr', 'CXXTemporaryObjectExpr'):
             return self.construct(f, st, env)
         if k in q.CALL_KINDS:
